@@ -118,7 +118,26 @@ def veq_arr(a, b):
     return core.mk_bool(z3.ForAll([IDX], z3.Select(a, IDX) == z3.Select(b, IDX)))
 
 
-CONTRACTS = [MoveCallLaterSooner]
+# The heap order also depends on what DelayedCall.reset / delay do to the key they are filed under: the key may only
+# decrease, and the reactor is told (resetter -> _moveCallLaterSooner) exactly then; postponements go to delayed_time.
+# Those contracts live with C09; here they are discharged again under C08, because a change that breaks them breaks the
+# heap (seeded change C08-3: `newTime < self.getTime()` raises a key in place).
+from contracts import C09 as _c09  # noqa: E402
+
+
+class ResetKeepsHeapKey(_c09.Reset):
+    prop = "C08"
+    ensures = dict(key_never_increases_resetter_iff_decreased=_c09._key_protocol)
+    canaries = [("if newTime < self.time:", "if newTime < self.getTime():", "key_never_increases_resetter_iff_decreased")]
+
+
+class DelayKeepsHeapKey(_c09.Delay):
+    prop = "C08"
+    ensures = dict(key_never_increases_resetter_iff_decreased=_c09._key_protocol)
+    canaries = []
+
+
+CONTRACTS = [MoveCallLaterSooner, ResetKeepsHeapKey, DelayKeepsHeapKey]
 BOUNDED = bounded("C08")
 _SCOPE = ('real ReactorBase (attribute clock, no I/O): every history of up to 4 operations over a 26-operation alphabet (callLater with nested scripts, cancel / reset / delay incl. negative, advance + runUntilCurrent, timeout()), every ordered pair of modifications of 4 queued calls, seeded random histories of 20-260 operations incl. >50 cancellations (heap compaction); oracle: an independent timer model checked at every observation point (runs exactly once iff not cancelled, never early, first iteration at or after its time, not in the scheduling iteration, no earlier pending call, getDelayedCalls = pending set, timeout() bound)')
 NOTES = dict(explanation="_moveCallLaterSooner proved to restore the heap order for a heap of any size; histories are bounded: " + _SCOPE,
